@@ -195,3 +195,21 @@ Theorem generated_position_filter_split_refines_model :
   ltac:(let t := type of position_filter_tables_split_rows_refines_proj in exact t).
 Proof. exact position_filter_tables_split_rows_refines_proj. Qed.
 Print Assumptions generated_position_filter_split_refines_model.
+
+(* ---- tie: the remaining public wrappers as REGENERATED from the source on this run (Gen/WrapperGen.v,
+   Gen/FilterWrapperGen.v over Model/Frame.v): overlap_coefficient_join_py, edit_distance_join_py,
+   overlap_join_py and the filters' filter_tables compute header_spec + the rows of api_join (entry
+   EJoin / EFilter / EOverlapFilter) through the declared projection, per chunk up to order *)
+From SSJ Require Import Frame WrapperGen FilterWrapperGen WrapperBody WrapperApiLink WrapperEnd WrapperRefineOvc WrapperRefineEd FilterWrapperRefineOverlap FilterWrapperRefine FilterWrapperRefineClosed.
+Theorem generated_filter_tables_wrappers_jcd :
+  ltac:(let t := type of filter_tables_rows_end_to_end_jcd in exact t).
+Proof. exact filter_tables_rows_end_to_end_jcd. Qed.
+Print Assumptions generated_filter_tables_wrappers_jcd.
+Theorem generated_filter_tables_wrappers_overlap :
+  ltac:(let t := type of filter_tables_rows_end_to_end_overlap in exact t).
+Proof. exact filter_tables_rows_end_to_end_overlap. Qed.
+Print Assumptions generated_filter_tables_wrappers_overlap.
+Theorem generated_filter_tables_wrappers_ed :
+  ltac:(let t := type of filter_tables_rows_end_to_end_ed in exact t).
+Proof. exact filter_tables_rows_end_to_end_ed. Qed.
+Print Assumptions generated_filter_tables_wrappers_ed.
